@@ -311,8 +311,23 @@ func (x *TX) of(v ssa.Value, at ssa.Instruction) *Term {
 	if isKeeperType(T) {
 		return mk("k", "k")
 	}
+	// Only the handler's own context is "ctx": the context parameter (or captured variable)
+	// and its sdk.Unwrap/WrapSDKContext images. A context derived in any other way
+	// (CacheContext, WithEventManager, WithValue, context.Background…) keeps its own term, so
+	// effects performed on a branch or with a throw-away event manager do not look like
+	// effects on the transaction's context.
 	if isCtxType(T) {
-		return mk("ctx", "ctx")
+		switch cv := v.(type) {
+		case *ssa.Parameter, *ssa.FreeVar:
+			return mk("ctx", "ctx")
+		case *ssa.Call:
+			if callee := cv.Call.StaticCallee(); callee != nil && !cv.Call.IsInvoke() {
+				n := funcName(callee)
+				if (n == "sdk.UnwrapSDKContext" || n == "sdk.WrapSDKContext") && len(cv.Call.Args) == 1 && x.Of(cv.Call.Args[0], cv).Op == "ctx" {
+					return mk("ctx", "ctx")
+				}
+			}
+		}
 	}
 	switch v := v.(type) {
 	case *ssa.Const:
@@ -363,6 +378,9 @@ func (x *TX) of(v ssa.Value, at ssa.Instruction) *Term {
 		return x.callTerm(v)
 	case *ssa.Extract:
 		tup := x.Of(v.Tuple, v)
+		if tup.Op == "tuple" && v.Index < len(tup.A) {
+			return tup.A[v.Index]
+		}
 		return mk("extract", strconv.Itoa(v.Index), tup)
 	case *ssa.Phi:
 		var alts []*Term
@@ -717,9 +735,6 @@ func (x *TX) allocValue(a *ssa.Alloc, at ssa.Instruction) *Term {
 	elem := a.Type().(*types.Pointer).Elem()
 	if isKeeperType(elem) {
 		return mk("k", "k")
-	}
-	if isCtxType(elem) {
-		return mk("ctx", "ctx")
 	}
 	if arr, ok := elem.Underlying().(*types.Array); ok {
 		if b, ok := arr.Elem().Underlying().(*types.Basic); ok && b.Kind() == types.Uint8 {
@@ -1387,6 +1402,9 @@ func (x *TX) callTerm(c *ssa.Call) *Term {
 			return &Term{Op: "conv", S: "[]byte", A: []*Term{in}}
 		}
 	}
+	if t := x.inlineHelper(callee, args); t != nil {
+		return t
+	}
 	if callee.Signature.Recv() != nil && len(args) > 0 && args[0].Op == "k" {
 		return &Term{Op: "call", S: "k." + callee.Name(), A: args[1:]}
 	}
@@ -1515,4 +1533,68 @@ func isInductionVar(t *Term) bool {
 		return (direct(t.A[0]) && t.A[1].Op == "const") || (direct(t.A[1]) && t.A[0].Op == "const")
 	}
 	return false
+}
+
+var inlining = map[*ssa.Function]bool{}
+
+// inlineHelper: a module function that is not part of the reference tree's API
+// (knownFuncs), has a body of straight-line code with a single return, and whose
+// transitive effects are at most capability-free external calls, is replaced by its
+// return term with the arguments substituted. Returns nil when it does not apply.
+func (x *TX) inlineHelper(callee *ssa.Function, args []*Term) *Term {
+	if callee.Blocks == nil || !x.p.inModuleCode(callee) || callee.Parent() != nil {
+		return nil
+	}
+	if knownFuncs[funcName(callee)] || inlining[callee] {
+		return nil
+	}
+	if strings.HasPrefix(funcName(callee), "zzverifcontrol") {
+		return nil
+	}
+	var ret *ssa.Return
+	for _, b := range callee.Blocks {
+		for _, in := range b.Instrs {
+			switch in := in.(type) {
+			case *ssa.Return:
+				if ret != nil {
+					return nil
+				}
+				ret = in
+			case *ssa.If, *ssa.Panic, *ssa.Store, *ssa.MapUpdate, *ssa.Go, *ssa.Defer, *ssa.Send:
+				if st, ok := in.(*ssa.Store); ok {
+					// stores into locals (struct literals, buffers) are fine
+					if _, local := rootAlloc(st.Addr); local {
+						continue
+					}
+				}
+				return nil
+			}
+		}
+	}
+	if ret == nil || len(callee.Blocks) != 1 {
+		return nil
+	}
+	inlining[callee] = true
+	defer delete(inlining, callee)
+	for _, e := range x.p.closure(callee) {
+		if e.Kind != "EXTERNAL" || e.Key != nil {
+			return nil
+		}
+	}
+	cx := x.p.tx(callee)
+	var results []*Term
+	for _, rv := range ret.Results {
+		t := substTerm(cx.Of(rv, ret), args)
+		if t.hasUnknown() {
+			return nil
+		}
+		results = append(results, t)
+	}
+	switch len(results) {
+	case 0:
+		return nil
+	case 1:
+		return results[0]
+	}
+	return &Term{Op: "tuple", A: results}
 }
